@@ -768,6 +768,26 @@ def write_evidence(check, tier, base_seed, agg, wall_s, extra):
 
 
 def main_check(check, argv):
+    """Entry point of a check. Everything the run (and its forked workers) creates as temporary files lives in one
+    scratch directory of its own, removed at the end - also what workers that had to be killed left behind."""
+    import shutil
+    import tempfile
+    saved_tmp = (os.environ.get("TMPDIR"), tempfile.tempdir)
+    scratch = tempfile.mkdtemp(prefix="verif_run_")
+    os.environ["TMPDIR"] = scratch
+    tempfile.tempdir = scratch
+    try:
+        return _main_check(check, argv)
+    finally:
+        tempfile.tempdir = saved_tmp[1]
+        if saved_tmp[0] is None:
+            os.environ.pop("TMPDIR", None)
+        else:
+            os.environ["TMPDIR"] = saved_tmp[0]
+        shutil.rmtree(scratch, ignore_errors=True)
+
+
+def _main_check(check, argv):
     t0 = time.monotonic()
     base_seed = int(os.environ.get("VERIF_SEED", DEFAULT_SEED))
     jobs = int(os.environ.get("VERIF_JOBS", "16"))
